@@ -425,7 +425,7 @@ class Chain(BaseChain):
 
     def __getitem__(self, index):
         """Returns all of the chain data at the requested index."""
-        index = (-1)**(index < 0) * (index % len(self))
+        index = index % len(self)
         out = {'positions': self._positions[index],
                'stats': self._stats[index],
                'acceptance': self._acceptance[index]
